@@ -54,12 +54,12 @@ int main(int argc, char** argv) {
 	if (part == "reduced" || part == "all") {
 		reduced(rng, 8, 1, 0); reduced(rng, 8, 3, 12); reduced(rng, 16, 2, 65);
 		// key lengths around the 128-byte block boundaries of the streamed initial hash (28 bytes of parameters precede the key)
-		reduced(rng, 8, 1, 88); reduced(rng, 8, 1, 89); reduced(rng, 8, 1, 100); reduced(rng, 8, 1, 101); reduced(rng, 8, 1, 229);
-		if (thorough) { reduced(rng, 8, 2, 1); reduced(rng, 16, 3, 128); reduced(rng, 32, 3, 300); reduced(rng, 32, 1, 63); reduced(rng, 16, 1, 64); }
+		reduced(rng, 8, 1, 79); reduced(rng, 8, 1, 80); reduced(rng, 8, 1, 81); reduced(rng, 8, 1, 88); reduced(rng, 8, 1, 89); reduced(rng, 8, 1, 100); reduced(rng, 8, 1, 101); reduced(rng, 8, 1, 208); reduced(rng, 8, 1, 229);
+		if (thorough) { reduced(rng, 8, 257, 5);      /* more than 256 passes: the pass number does not fit a byte */ reduced(rng, 8, 2, 1); reduced(rng, 16, 3, 128); reduced(rng, 32, 3, 300); reduced(rng, 32, 1, 63); reduced(rng, 16, 1, 64); }
 	}
 	if (part == "full" || part == "all") {
 		const uint32_t m = RANDOMX_ARGON_MEMORY, t = RANDOMX_ARGON_ITERATIONS, seg = m / 4;
-		std::vector<uint8_t> key = rng.bytes(1 + rng.below(80));
+		std::vector<uint8_t> key = rng.bytes(8 + rng.below(73)); key[2] = 0;      // (a key with an embedded NUL)
 		block* mem[3] = { nullptr, nullptr, nullptr };
 		int nsamples = thorough ? 10 : 3;
 		for (int k = 0; k < 3; ++k) {
@@ -92,10 +92,13 @@ int main(int argc, char** argv) {
 		}
 		for (int k = 1; k < 3; ++k) if (mem[k]) { Line l; l.str("e", "same").str("what", std::string("full fill ref vs ") + impl_name(k)).num("diff", diffblocks(mem[0], mem[k], m)); l.emit(out); }
 		// the public path: randomx_init_cache (each Argon2 flag) equals the manual reference fill; re-keying leaves no trace
-		std::vector<uint8_t> key2 = rng.bytes(1 + rng.below(80));
 		const randomx_flags fl[3] = { RANDOMX_FLAG_DEFAULT, RANDOMX_FLAG_ARGON2_SSSE3, RANDOMX_FLAG_ARGON2_AVX2 };
 		for (int k = 0; k < 3; ++k) {
 			randomx_cache* c = randomx_alloc_cache(fl[k]); if (!c) continue;
+			// the previous key is related to the final one: same length and equal up to and beyond the NUL except for the last byte /
+			// the final key is a proper prefix of it / unrelated
+			std::vector<uint8_t> key2 = key;
+			if (k == 0) key2.back() ^= 0x55; else if (k == 1) { key2.push_back(7); key2.push_back(0); key2.push_back(9); } else key2 = rng.bytes(1 + rng.below(80));
 			randomx_init_cache(c, key2.data(), key2.size());        // first another key ...
 			randomx_init_cache(c, key.data(), key.size());          // ... then re-keyed to `key`
 			{ Line l; l.str("e", "same").str("what", std::string("init_cache (re-keyed) vs manual ref fill, ") + impl_name(k)).num("diff", diffblocks((block*)randomx_get_cache_memory(c), mem[0], m)); l.emit(out); }
